@@ -629,6 +629,7 @@ pub fn to_string(format: ExportFormat, rt: &NickelValue) -> Result<String, Point
 /// any new dependencies, because it's used by `toml` internally anyway.
 pub mod toml_deser {
     use crate::{
+        error::ParseError,
         eval::value::NickelValue,
         files::FileId,
         identifier::LocIdent,
@@ -636,13 +637,46 @@ pub mod toml_deser {
         term::record::{RecordAttrs, RecordData},
     };
     use codespan::ByteIndex;
-    use malachite::{base::num::conversion::traits::ExactFrom as _, rational::Rational};
+    use malachite::rational::Rational;
     use nickel_lang_parser::ast::{
         Ast, AstAlloc, Node,
         record::{FieldDef, FieldMetadata, FieldPathElem},
     };
     use std::ops::Range;
     use toml_edit::Value;
+
+    /// Convert a TOML float the way the other deserializers do: the simplest rational that rounds
+    /// to this float, so that `0.1` is read as `1/10` and not as the binary expansion of the
+    /// float. `inf` and `nan` are rejected by [check_floats] before any conversion happens.
+    fn number_from_float(f: f64) -> Rational {
+        Rational::try_from_float_simplest(f)
+            .expect("non-finite floats are rejected before conversion")
+    }
+
+    /// TOML has `inf` and `nan`, which Nickel numbers don't have: report them as an error.
+    fn check_floats(item: &toml_edit::Item, src_id: FileId) -> Result<(), ParseError> {
+        fn check_value(val: &Value, src_id: FileId) -> Result<(), ParseError> {
+            match val {
+                Value::Float(f) if !f.value().is_finite() => Err(ParseError::ExternalFormatError(
+                    String::from("toml"),
+                    String::from("Nickel numbers cannot be inf or NaN"),
+                    range_pos(val.span(), src_id).into_opt(),
+                )),
+                Value::Array(vs) => vs.iter().try_for_each(|v| check_value(v, src_id)),
+                Value::InlineTable(t) => t.iter().try_for_each(|(_, v)| check_value(v, src_id)),
+                _ => Ok(()),
+            }
+        }
+
+        match item {
+            toml_edit::Item::None => Ok(()),
+            toml_edit::Item::Value(v) => check_value(v, src_id),
+            toml_edit::Item::Table(t) => t.iter().try_for_each(|(_, i)| check_floats(i, src_id)),
+            toml_edit::Item::ArrayOfTables(ts) => ts.iter().try_for_each(|t| {
+                t.iter().try_for_each(|(_, i)| check_floats(i, src_id))
+            }),
+        }
+    }
 
     fn range_pos(range: Option<Range<usize>>, src_id: FileId) -> TermPos {
         range.map_or(TermPos::None, |span| {
@@ -692,7 +726,7 @@ pub mod toml_deser {
             match self {
                 Value::String(s) => NickelValue::string_posless(s.value()),
                 Value::Integer(i) => NickelValue::number_posless(*i.value()),
-                Value::Float(f) => NickelValue::number_posless(Rational::exact_from(*f.value())),
+                Value::Float(f) => NickelValue::number_posless(number_from_float(*f.value())),
                 Value::Boolean(b) => NickelValue::bool_value_posless(*b.value()),
                 Value::Array(vs) => NickelValue::array_posless(
                     vs.iter()
@@ -741,8 +775,11 @@ pub mod toml_deser {
         pos_table: &mut PosTable,
         s: &str,
         file_id: FileId,
-    ) -> Result<NickelValue, toml_edit::TomlError> {
-        let doc: toml_edit::Document<_> = s.parse()?;
+    ) -> Result<NickelValue, ParseError> {
+        let doc: toml_edit::Document<_> = s
+            .parse()
+            .map_err(|err| ParseError::from_toml(err, file_id))?;
+        check_floats(doc.as_item(), file_id)?;
         Ok(doc
             .as_item()
             .to_value_with_pos(pos_table, doc.span(), file_id))
@@ -804,7 +841,7 @@ pub mod toml_deser {
             let node = match self {
                 Value::String(s) => alloc.string(s.value()),
                 Value::Integer(i) => alloc.number((*i.value()).into()),
-                Value::Float(f) => alloc.number(Rational::exact_from(*f.value())),
+                Value::Float(f) => alloc.number(number_from_float(*f.value())),
                 Value::Boolean(b) => Node::Bool(*b.value()),
                 Value::Datetime(dt) => alloc.string(&dt.to_string()),
                 Value::Array(array) => alloc.array(
@@ -823,8 +860,11 @@ pub mod toml_deser {
         alloc: &'ast AstAlloc,
         s: &str,
         file_id: FileId,
-    ) -> Result<Ast<'ast>, toml_edit::TomlError> {
-        let doc: toml_edit::Document<_> = s.parse()?;
+    ) -> Result<Ast<'ast>, ParseError> {
+        let doc: toml_edit::Document<_> = s
+            .parse()
+            .map_err(|err| ParseError::from_toml(err, file_id))?;
+        check_floats(doc.as_item(), file_id)?;
         Ok(doc.as_item().to_ast(alloc, file_id))
     }
 }
